@@ -186,9 +186,11 @@ class MerkleCache(object):
             truncations = self.truncations
             hashes = await self.source_func(start, length - start)
             level = self._level(hashes)
-            # Hashes read across a truncation may be of an abandoned chain; read again
+            # Hashes read across a truncation may be of an abandoned chain; read again.
+            # Only ever grow here: an overlapping extension to a greater length may have
+            # committed first, and requests in flight rely on the length it reached
             with self.lock:
-                if truncations == self.truncations:
+                if truncations == self.truncations and length > self.length:
                     self.level[start >> self.depth_higher:] = level
                     self.length = length
 
